@@ -140,6 +140,7 @@ def run(ctx, rep):
     F = ctx.facts("full")
     rep.rule("C15.wiring", "same-typed fields of a struct literal are initialised from the like-named source, not from each other's")
     rep.rule("C15.passover", "a field named like a field of the structure it is read from is read from that field, not from a same-typed sibling")
+    rep.rule("C15.order", "parallel lists are walked in step and in their own order; the control block is handed over as serialised")
     rep.rule("C15.args", "same-typed arguments between marshalling functions follow the callee's parameter names")
     rep.rule("C15.alloc", "malloc'ed C objects are stored in the CTxEnv and freed once each; c_set_txEnv gets (tx, taproot, genesis, ix)")
     fns = [f for f in F.fns.values() if f.path.startswith(MODS[:2]) or f.path.startswith("simplicity::jet::elements::environment")]
@@ -213,6 +214,7 @@ def run(ctx, rep):
     rep.count("internal_calls", n_calls)
     rep.floor("C15.args", n_calls, 4)
     alloc(F, rep)
+    order(F, rep, fns)
     return FINISH
 
 
@@ -390,6 +392,62 @@ def passover(F, rep, f, s, key, names, types, terms):
                               "%s:%s" % (f.file, s[3] if len(s) > 3 else f.line))
     return n
 
+
+
+REORDER = {"rev", "skip", "step_by", "skip_while", "rotate_left", "rotate_right", "reverse", "sort", "sort_by", "sort_by_key", "swap", "chain", "cycle"}
+
+
+def order(F, rep, fns):
+    """inputs, their spent outputs and the per-input data are parallel lists: the marshalling loops zip them in step, none of
+    them reversed, skipped or re-ordered; the taproot control block and its Merkle branch reach C as ControlBlock::serialize
+    writes them (leaf-to-root), not re-assembled by hand"""
+    n = 0
+    for f0 in sorted(fns, key=lambda x: x.path):
+        if f0.kind == "Closure":
+            continue
+        f = F.inlined(f0, ("zip", "iter", "iter_mut", "rev", "serialize"))
+        T = Terms(f)
+        for cs in f.calls():
+            if cs.name != "zip" or len(cs.args) != 2:
+                continue
+            for k, a in enumerate(cs.args):
+                t = T.operand(a)
+                bad = sorted({c[2] for c in calls_in(t) if c[2] in REORDER})
+                n += 1
+                key = "%s: zip operand %s" % (fm.short(f0.path), "/".join(words(t)[:3]) or "?")
+                if bad:
+                    rep.violation("C15.order", "%s:zip:%s" % (fm.short(f0.path), ",".join(bad)), "%s zips parallel lists of the transaction but walks `%s` through %s: element i "
+                                  "of one list is paired with another element of the other" % (f0.path, "/".join(words(t)[:3]), bad), cs.where())
+                else:
+                    rep.ok("C15.order", key, None)
+    nt = F.fn("simplicity::jet::elements::c_env::new_tap_env")
+    if nt is None:
+        rep.anchor("C15.order", "c_env::new_tap_env")
+    else:
+        f = F.inlined(nt, ("serialize", "as_ptr"))
+        T = Terms(f)
+        done = False
+        for b in f.rpo():
+            for st in f.blocks[b]["s"]:
+                if st[0] == "=" and st[2].get("k") == "agg" and str(st[2].get("adt", "")).endswith("CRawTapEnv"):
+                    d = dict(zip(st[2].get("fields") or [], [T.operand(o) for o in st[2]["ops"]]))
+                    t = d.get("control_block")
+                    ser = [c for c in calls_in(t) if c[2] == "serialize" and "ControlBlock" in c[1]] if t is not None else []
+                    done = True
+                    n += 1
+                    if ser and 1 in vcc_roots(ser[0][3][0]) and not any(c[2] in REORDER or c[2] in ("extend", "extend_from_slice", "push", "concat") for c in calls_in(t)):
+                        rep.ok("C15.order", "new_tap_env: control block = ControlBlock::serialize(control_block)", None)
+                    else:
+                        rep.violation("C15.order", "new_tap_env:control_block", "the control block handed to C is %s, not the serialisation of the supplied control block "
+                                      "as ControlBlock::serialize writes it (leaf version, internal key, branch leaf-to-root)" % expr.canon(t)[:100], nt.where())
+        if not done:
+            rep.anchor("C15.order", "CRawTapEnv literal in new_tap_env")
+    rep.floor("C15.order", n, 5)
+
+
+def vcc_roots(t):
+    import vcc
+    return vcc.param_roots(t, fm)
 
 def alloc(F, rep):
     env_new = [f for f in F.fns.values() if f.name == "new" and f.path.startswith("simplicity::jet::elements::environment::ElementsEnv")]
